@@ -113,6 +113,12 @@ fn acquire(pool: &Arc<PoolInner>) -> usize {
     }
 }
 
+/// Jobs are separate tasks under the scheduler - or, in pass-through mode (Miri tier), separate
+/// OS threads that the outer scheduler interleaves; outside both, everything runs inline.
+fn par_mode() -> bool {
+    detsim::in_sim() || detsim::PASSTHROUGH.load(Ordering::Relaxed)
+}
+
 fn global_pool() -> Arc<PoolInner> {
     let mut g = GLOBAL.lock().unwrap();
     if g.is_none() {
@@ -279,12 +285,20 @@ impl ThreadPool {
         self.install(|| join(a, b))
     }
 
+    pub fn scope<'scope, OP, R>(&self, op: OP) -> R
+    where
+        OP: FnOnce(&Scope<'scope>) -> R + Send,
+        R: Send,
+    {
+        self.install(|| scope(op))
+    }
+
     pub fn spawn<OP>(&self, op: OP)
     where
         OP: FnOnce() + Send + 'static,
     {
         stats::SPAWN_STARTED.fetch_add(1, Ordering::SeqCst);
-        if !detsim::in_sim() {
+        if !par_mode() {
             op();
             stats::SPAWN_FINISHED.fetch_add(1, Ordering::SeqCst);
             return;
@@ -326,7 +340,7 @@ where
             return op();
         }
     }
-    if !detsim::in_sim() {
+    if !par_mode() {
         return op();
     }
     stats::INSTALL_JOB.fetch_add(1, Ordering::Relaxed);
@@ -373,7 +387,7 @@ where
     RA: Send,
     RB: Send,
 {
-    if !detsim::in_sim() {
+    if !par_mode() {
         let ra = a();
         let rb = b();
         return (ra, rb);
@@ -409,6 +423,85 @@ where
         (Err(p), _) => resume_unwind(p),
         (Ok(_), Err(p)) => resume_unwind(p),
         (Ok(x), Ok(y)) => (x, y),
+    }
+}
+
+
+/// `rayon::scope`: jobs spawned on the scope are pool jobs; the call returns when the body and
+/// every job (and the jobs those spawned) have finished; a panic of any of them is re-raised.
+pub struct Scope<'scope> {
+    pool: Option<Arc<PoolInner>>,
+    left: Arc<AtomicUsize>,
+    panics: Mutex<Vec<Payload>>,
+    _marker: std::marker::PhantomData<Box<dyn FnOnce(&Scope<'scope>) + Send + Sync + 'scope>>,
+}
+
+impl<'scope> Scope<'scope> {
+    pub fn spawn<BODY>(&self, body: BODY)
+    where
+        BODY: FnOnce(&Scope<'scope>) + Send + 'scope,
+    {
+        let pool = match &self.pool {
+            None => {
+                // no scheduler: run at once
+                if let Err(p) = catch_unwind(AssertUnwindSafe(|| body(self))) {
+                    self.panics.lock().unwrap().push(p);
+                }
+                return;
+            }
+            Some(p) => p.clone(),
+        };
+        self.left.fetch_add(1, Ordering::SeqCst);
+        let left = self.left.clone();
+        let me = SendPtr(self as *const Scope<'scope> as *mut Scope<'scope>);
+        let job: Box<dyn FnOnce() + Send + '_> = Box::new(move || {
+            let me = me;
+            let sc: &Scope<'scope> = unsafe { &*me.0 };
+            job_body(pool, || {
+                if let Err(p) = catch_unwind(AssertUnwindSafe(|| body(sc))) {
+                    sc.panics.lock().unwrap().push(p);
+                }
+            });
+            left.fetch_sub(1, Ordering::SeqCst);
+        });
+        detsim::spawn("scope-job", unsafe { erase(job) });
+    }
+}
+
+pub fn scope<'scope, OP, R>(op: OP) -> R
+where
+    OP: FnOnce(&Scope<'scope>) -> R + Send,
+    R: Send,
+{
+    if !par_mode() {
+        let sc = Scope { pool: None, left: Arc::new(AtomicUsize::new(0)), panics: Mutex::new(Vec::new()), _marker: std::marker::PhantomData };
+        let r = catch_unwind(AssertUnwindSafe(|| op(&sc)));
+        let mut ps = std::mem::take(&mut *sc.panics.lock().unwrap());
+        return match r {
+            Err(p) => resume_unwind(p),
+            Ok(_) if !ps.is_empty() => resume_unwind(ps.swap_remove(0)),
+            Ok(v) => v,
+        };
+    }
+    let pool = match worker() {
+        Some((p, _)) => p,
+        None => {
+            let g = global_pool();
+            return install_in(&g, move || scope(op));
+        }
+    };
+    let sc = Scope { pool: Some(pool), left: Arc::new(AtomicUsize::new(0)), panics: Mutex::new(Vec::new()), _marker: std::marker::PhantomData };
+    let r = catch_unwind(AssertUnwindSafe(|| op(&sc)));
+    let l = sc.left.clone();
+    wait_as_worker("scope", move || l.load(Ordering::SeqCst) == 0);
+    let mut ps = std::mem::take(&mut *sc.panics.lock().unwrap());
+    match r {
+        Err(p) => resume_unwind(p),
+        Ok(_) if !ps.is_empty() => {
+            let k = detsim::choose(0x50414e, ps.len());
+            resume_unwind(ps.swap_remove(k))
+        }
+        Ok(v) => v,
     }
 }
 
@@ -453,7 +546,7 @@ fn for_each_items<T: Send, F: Fn(T) + Sync + Send>(items: Vec<T>, min: usize, ma
 
 fn for_each_jobs<T: Send, F: Fn(T) + Sync + Send>(items: Vec<T>, f: F) {
     let n = items.len();
-    if !detsim::in_sim() || n == 1 {
+    if !par_mode() || n == 1 {
         stats::FOR_EACH_INLINE.fetch_add(1, Ordering::Relaxed);
         for it in items {
             f(it);
